@@ -478,6 +478,28 @@ class ProgGen:
         self.refs[h] = list(self.rr.env[h].vis)
         return h
 
+    def add_table_like(self, like_h, name, change=("y",), keep_rows=None):
+        """A source table with the rows of an existing source table in which only the columns `change` differ:
+        projections onto the other columns contain duplicates that whole rows do not."""
+        src = next(t for t in self.tables if t["handle"] == like_h)
+        h = self.new_handle()
+        rows = [list(r) for r in src["rows"]]
+        if keep_rows is not None:
+            rows = rows[:keep_rows]
+        names = [cn for cn, _ in src["schema"]]
+        for r in rows:
+            for c in change:
+                j = names.index(c)
+                r[j] = 0 if r[j] is None else r[j] + 1
+        ts = {"handle": h, "name": name, "schema": [list(x) for x in src["schema"]], "rows": rows, "shape": "like:" + src.get("shape", "")}
+        self.tables.append(ts)
+        schema = [(cn, FAM_OF[dt]) for cn, dt in ts["schema"]]
+        from .drive import table_rows
+
+        self.rr.env[h] = ref.source_table(name, schema, table_rows(ts), "pol")
+        self.refs[h] = list(self.rr.env[h].vis)
+        return h
+
     def scope(self, h, visible_only=False, c_prob=0.2):
         """References valid on table `h`: through any earlier handle whose column id is still in scope,
         or by name via C."""
@@ -793,6 +815,15 @@ class ProgGen:
                 if pair[0] in used_pairs or pair[1] in used_pairs:
                     continue  # D20: Polars cannot use one key column in two join predicates
                 used_pairs.update(pair)
+                # C.<name> inside `on` is looked up in the left table, then in the right one; a name visible in
+                # both is rejected as ambiguous (rarely generated on purpose)
+                lv, rv = set(lt.names()), set(rt.names())
+                if le_["n"] in lv and lt.name_to_id()[le_["n"]] == pair[0] and rng.random() < 0.25 and (le_["n"] not in rv or rng.random() < 0.1):
+                    le_ = cname(le_["n"])
+                    self.features.add("c_in_on")
+                if re_["n"] in rv and rt.name_to_id()[re_["n"]] == pair[1] and re_["n"] not in lv and rng.random() < 0.25:
+                    re_ = cname(re_["n"])
+                    self.features.add("c_in_on")
                 if op == "eq" and f == "int" and rng.random() < 0.2:
                     re_ = fn("add", re_, lit(rng.choice([0, 1])))
                 preds.append(fn(op, le_, re_) if rng.random() < 0.8 else fn({"lt": "gt", "gt": "lt", "le": "ge", "ge": "le", "eq": "eq"}[op], re_, le_))
@@ -1885,6 +1916,88 @@ def gen_collide(seed):
             if g.try_step(un):
                 h = un["out"]
     probes.append(h)
+    return g.finish(probes)
+
+
+def gen_subq_edges(seed):
+    """Directed subquery edge cases: a subquery from which nothing is needed (only 0-ary functions follow), unions
+    whose operands are subqueries / unions themselves, subquery chains."""
+    g = ProgGen(seed)
+    rng = g.rng
+    h0 = g.add_table("t", cols=["k", "g", "x", "y", "s", "b"])
+    kind = rng.choice(["zero_cols", "zero_cols_window", "zero_cols_grouped", "union_of_subqueries", "union_of_subqueries", "union_of_subqueries", "union_chain_alias", "alias_chain"])
+    g.features.add("subq_edge:" + kind)
+    h = h0
+    probes = []
+
+    def do(st):
+        nonlocal h
+        st = dict(st, out=g.new_handle())
+        st.setdefault("in", h)
+        if g.try_step(st):
+            h = st["out"]
+            return True
+        return False
+
+    key = col(h0, "k")
+    if kind.startswith("zero_cols"):
+        if kind == "zero_cols_window":
+            do({"verb": "mutate", "kw": [["w", fn("row_number", arr=[{"e": key, "desc": False, "nl": True}])]]})
+            do({"verb": "filter", "preds": [fn("gt", col(h0, "k"), lit(rng.choice([0, 2])))]}) if rng.random() < 0.5 else None
+        else:
+            do({"verb": "arrange", "by": [{"e": key, "desc": rng.random() < 0.5, "nl": True}]})
+            do({"verb": "slice_head", "n": rng.choice([1, 3, 50]), "offset": rng.choice([0, 1])})
+        do({"verb": "alias", "keep": rng.random() < 0.5})
+        if kind == "zero_cols_grouped":
+            do({"verb": "group_by", "cols": [cname("g")]})
+            do({"verb": "summarize", "kw": [["n", fn("count_star")]]})
+        elif rng.random() < 0.5:
+            do({"verb": "summarize", "kw": [["n", fn("count_star")]]})
+        else:
+            do({"verb": "mutate", "kw": [["n", fn("count_star")]]})
+            do({"verb": "select", "cols": [cname("n")]})
+        probes.append(h)
+    elif kind in ("union_of_subqueries", "union_chain_alias"):
+        # mostly: operands that agree on most columns, so that a comparison on fewer columns would merge rows
+        h1 = g.add_table_like(h0, "u", change=(rng.choice(["y", "x", "k"]),)) if rng.random() < 0.7 else g.add_table("u", cols=["k", "g", "x", "y", "s", "b"], shape="small_dups", nrows=rng.randint(0, 5))
+        h2 = g.add_table_like(h0, "v", change=("y", "k"), keep_rows=3) if rng.random() < 0.5 else g.add_table("v", cols=["k", "g", "x", "y", "s", "b"], shape="small_dups", nrows=rng.randint(0, 4))
+        sides = []
+        for hh in (h0, h1):
+            h = hh
+            if kind == "union_of_subqueries":
+                do({"verb": "arrange", "by": [{"e": col(hh, "k"), "desc": False, "nl": True}]})
+                do({"verb": "slice_head", "n": rng.choice([2, 4]), "offset": 0})
+                do({"verb": "alias", "keep": False})
+            elif rng.random() < 0.5:
+                do({"verb": "filter", "preds": [fn("ge", col(hh, "k"), lit(rng.choice([0, 2])))]})
+            sides.append(h)
+        h = sides[0]
+        do({"verb": "union", "right": sides[1], "distinct": rng.random() < 0.5})
+        probes.append(h)
+        if rng.random() < 0.7:
+            do({"verb": "alias", "keep": False})
+        do({"verb": "union", "right": h2, "distinct": rng.random() < 0.5})
+        probes.append(h)
+        r = rng.random()
+        if r < 0.45:
+            if rng.random() < 0.6:
+                do({"verb": "alias", "keep": False})
+            do({"verb": "group_by", "cols": [cname("g")]})
+            do({"verb": "summarize", "kw": [["n", fn("count_star")], ["sx", fn("sum", cname("x"))]]})
+            probes.append(h)
+        elif r < 0.8:
+            do({"verb": "select", "cols": [cname(rng.choice(["g", "x", "s"]))]})
+            probes.append(h)
+    else:
+        for _ in range(rng.randint(2, 4)):
+            do({"verb": "alias", "keep": rng.random() < 0.5})
+            c = rng.choice(["x", "y"])
+            do({"verb": "mutate", "kw": [[c, fn("add", cname(c), lit(1))]]})
+            if rng.random() < 0.5:
+                do({"verb": "arrange", "by": [{"e": cname("k"), "desc": False, "nl": True}]})
+                do({"verb": "slice_head", "n": rng.choice([3, 6, 30]), "offset": 0})
+        probes.append(h)
+    probes = [p for p in dict.fromkeys(probes) if not g.rr.env[p].group] or [h]
     return g.finish(probes)
 
 
